@@ -301,7 +301,10 @@ def gen_c02(tier, seed):
         ids = sorted(rng.sample(range(0, 8), rng.randrange(1, 6)))
         lay = []
         for _ in ids:
-            st = rng.choice(["incomplete", "complete", "complete", "nohead", "incomplete", "noheadtail"])
+            # (a head-less directory that still has its tail -- what a delete killed inside the removal of
+            # a version leaves -- is not among them: with a tail it is taken for a damaged complete
+            # version and "latest" deliberately reports the error instead of silently going further back)
+            st = rng.choice(["incomplete", "complete", "complete", "nohead", "incomplete"])
             sel = [j + 1 for j in range(len(universe)) if rng.random() < 0.6]
             if st == "incomplete":
                 sel = sel[:rng.randrange(0, len(sel) + 1)]
